@@ -840,6 +840,11 @@ struct static_array<T, ::boost::multi::dimensionality_type{0}, Alloc>  // NOLINT
 	using ref::operator==;
 	using ref::operator!=;
 
+	// two zero-dimensional arrays compare by their (single) element; without these exact matches the implicit
+	// conversions to the element type make `a == b` ambiguous with the built-in comparison
+	friend constexpr auto operator==(static_array const& self, static_array const& other) -> bool { return *self.base_ == *other.base_; }
+	friend constexpr auto operator!=(static_array const& self, static_array const& other) -> bool { return !(*self.base_ == *other.base_); }
+
 	static_array(
 		typename static_array::extensions_type const& extensions,
 		typename static_array::element const& elem, allocator_type const& alloc
